@@ -87,11 +87,12 @@ def IsNumberDoc (w : List Char) : Prop :=
     (∃ body, w = '0' :: 'b' :: body ∧ IsRadixBody isBinDigit body)
 
 /-- What the tokenizer (and the table in doc/grammar.md) accepts in addition: one `_`
-directly after the `0x` / `0b` prefix.  Not described by the language reference
+directly after the `0x` / `0b` prefix of a constant whose digits are grouped by 4 or by 8
+(the first group may be shorter).  Not described by the language reference
 (known finding `number-with-underscore-directly-after-radix-prefix`). -/
 def IsNumberRadixUnderscore (w : List Char) : Prop :=
-  (∃ body, w = '0' :: 'x' :: '_' :: body ∧ IsRadixBody isHexDigit body) ∨
-    (∃ body, w = '0' :: 'b' :: '_' :: body ∧ IsRadixBody isBinDigit body)
+  (∃ body, w = '0' :: 'x' :: '_' :: body ∧ (Grouped isHexDigit 4 4 body ∨ Grouped isHexDigit 8 8 body)) ∨
+    (∃ body, w = '0' :: 'b' :: '_' :: body ∧ (Grouped isBinDigit 4 4 body ∨ Grouped isBinDigit 8 8 body))
 
 /-- The catch-all number shape of doc/grammar.md (`BadNumber`): a digit, optionally one
 of `b x B X`, then hex digits and underscores. -/
